@@ -449,13 +449,13 @@ func (w *world) mem() []byte {
 
 // dial opens a host-side connection to the pre-opened listener, sends a little data, closes its
 // write side (so that guest reads end in EOF instead of blocking) and drains what the guest sends.
-func (w *world) dial() {
+func (w *world) dial() bool {
 	if w.addr == "" {
-		return
+		return false
 	}
-	c, err := net.DialTimeout("tcp", w.addr, 2*time.Second)
+	c, err := net.DialTimeout("tcp", w.addr, 5*time.Second)
 	if err != nil {
-		return
+		return false
 	}
 	c.Write([]byte("0123456789abcdefghijklmnopqrstuvwxyzABCD"))
 	if tc, ok := c.(*net.TCPConn); ok {
@@ -463,6 +463,7 @@ func (w *world) dial() {
 	}
 	go io.Copy(io.Discard, c)
 	w.conns = append(w.conns, c)
+	return true
 }
 
 // Scratch addresses used by the prefix and the probes (memory is re-initialised afterwards).
@@ -529,7 +530,9 @@ func (w *world) prefix() {
 			if !w.c.Sock {
 				continue
 			}
-			w.dial()
+			if !w.dial() {
+				continue
+			}
 			e, o := w.call("sock_accept", fdListener, uint64(op.Fdflags), scrRes)
 			if o.Kind == wz.KOK && e == 0 {
 				fd, _ := m.ReadUint32Le(scrRes)
@@ -671,7 +674,8 @@ type result struct {
 	Alloc      uint64
 	HasFd      bool
 	Boundary   int
-	DroppedRes bool // success although a fixed-size result pointer is outside memory (informational)
+	Harness    string // the harness could not run the case (not a verdict)
+	DroppedRes bool   // success although a fixed-size result pointer is outside memory (informational)
 	Msg        string
 }
 
@@ -756,8 +760,10 @@ func (w *world) runCall(c *Case) (r result) {
 	w.initMem(c)
 	snap := append([]byte(nil), w.mem()...)
 	regions := fn.OutputRegions(c.Args, snap, abiEnv())
-	if c.Fn == "sock_accept" {
-		w.dial() // a pending connection, so that a successful lookup cannot block in accept
+	if c.Fn == "sock_accept" && c.Sock && !w.dial() {
+		// without a pending connection a successful lookup of a blocking listener would block forever
+		r.Harness = "cannot connect to the pre-opened listener at " + w.addr
+		return
 	}
 
 	var ms0, ms1 runtime.MemStats
@@ -765,6 +771,9 @@ func (w *world) runCall(c *Case) (r result) {
 	errno, out := w.call(c.Fn, c.Args...)
 	runtime.ReadMemStats(&ms1)
 	r.Errno, r.Out, r.Alloc = errno, out, ms1.TotalAlloc-ms0.TotalAlloc
+	if r.Alloc > 32<<20 {
+		sinceGC = gcEvery // collect as soon as this world is closed: automatic collection is off
+	}
 
 	// (1) outcome
 	switch {
@@ -944,6 +953,9 @@ func TestReplay(t *testing.T) {
 	r, err := execute(&c)
 	if err != nil {
 		t.Fatalf("harness: %v", err)
+	}
+	if r.Harness != "" {
+		t.Fatalf("harness: %s", r.Harness)
 	}
 	t.Logf("errno=%d outcome=%s alloc=%d memchanged=%v", r.Errno, r.Out, r.Alloc, r.MemChanged)
 	if r.Msg != "" {
